@@ -701,6 +701,14 @@ func acceptLoopRules(p *Prog, r *Report, R string) {
 						if bc := e4.may[callee]; bc != nil && bc.Info.Kind == "net-io" {
 							bad = append(bad, bc.Info.What+" (through "+strings.Join(bc.Chain, " -> ")+") at "+p.InstrPos(x))
 						}
+						// nor for anything else that only another goroutine can end: a channel
+						// operation, a WaitGroup or a condition variable somewhere below the call
+						if what, chain := p.mayParkBelow(callee, map[*ssa.Function]bool{}, 0); what != "" {
+							bad = append(bad, what+" (through "+chain+") at "+p.InstrPos(x))
+						}
+					}
+					if bi := directBlocking(x); bi != nil && (bi.Kind == "chan-send" || bi.Kind == "chan-recv" || bi.Kind == "select" || bi.Kind == "wg-wait" || bi.Kind == "cond-wait") {
+						bad = append(bad, bi.What+" at "+p.InstrPos(x))
 					}
 				}
 			}
@@ -709,6 +717,38 @@ func acceptLoopRules(p *Prog, r *Report, R string) {
 		})
 	}
 	r.Count("wire.accept_loops", n)
+}
+
+// mayParkBelow: fn, or something it calls synchronously inside the module, can park the
+// goroutine on a channel, a WaitGroup or a condition variable.
+func (p *Prog) mayParkBelow(fn *ssa.Function, seen map[*ssa.Function]bool, depth int) (string, string) {
+	if fn == nil || seen[fn] || depth > 6 || fn.Blocks == nil || !p.moduleFunc(fn) {
+		return "", ""
+	}
+	seen[fn] = true
+	what, chain := "", ""
+	EachInstr(fn, func(in ssa.Instruction) {
+		if what != "" {
+			return
+		}
+		if _, isDefer := in.(*ssa.Defer); isDefer {
+			return
+		}
+		if bi := directBlocking(in); bi != nil {
+			switch bi.Kind {
+			case "chan-send", "chan-recv", "select", "wg-wait", "cond-wait":
+				what, chain = bi.What+" at "+p.InstrPos(in), p.FuncName(fn)
+				return
+			}
+		}
+		for _, callee := range p.E1().syncCallees[in] {
+			if w, c := p.mayParkBelow(callee, seen, depth+1); w != "" {
+				what, chain = w, p.FuncName(fn)+" -> "+c
+				return
+			}
+		}
+	})
+	return what, chain
 }
 
 // recvLength: the canonical description of the announced frame length in a stream Recv,
